@@ -276,6 +276,16 @@ class MolHeapAdapter:
                     dst = copy.deepcopy(src)
                 elif r == "upcast":
                     dst = getattr(ml, to)(src)
+                elif r in ("construct_arrays", "upcast_arrays"):
+                    # the explicit-argument form of the constructors: the source's own arrays are handed over
+                    kw = {}
+                    if hasattr(src, "coords") and to != "Promolecule" and to != "Connectivity":
+                        kw["coords"] = src.coords
+                    if hasattr(src, "atomic_charges") and to in ("Molecule", "ConformerEnsemble"):
+                        kw["atomic_charges"] = src.atomic_charges
+                    if hasattr(src, "weights") and to == "ConformerEnsemble":
+                        kw["weights"] = src.weights
+                    dst = getattr(ml, to)(src, **kw)
                 elif r == "concat":
                     dst = getattr(ml, to).concatenate(src, make(to))
                 elif r == "ensemble_from":
